@@ -95,6 +95,7 @@ for _exact in (True, False):
                   f'shapes[{_tag}]': "shape(res[0])[:2] == shape(A)[:2] and shape(res[0])[2] == shape(res[1])[1] and "
                                      "shape(res[1])[0] == shape(Anext)[0] and shape(res[1])[2] == shape(Anext)[2] and res[2].dim == shape(res[0])[2]",
                   f'sparse_A[{_tag}]': _sparse('res[0]', '[qd, qD[0], -res[2]]'),
+                  f'sparse_Anext[{_tag}]': _sparse('res[1]', '[qdn, res[2], -q2]'),
               },
               canaries={f'left_isometry[{_tag}]': "einsum('sac*,sbc->ab', res[0], res[0]) == identity(shape(res[0])[1])"},
               props=('C13', 'C02', 'C12'))
@@ -107,6 +108,7 @@ for _exact in (True, False):
                   f'shapes[{_tag}]': "shape(res[0])[0] == shape(A)[0] and shape(res[0])[2] == shape(A)[2] and shape(res[0])[1] == shape(res[1])[2] and "
                                      "shape(res[1])[:2] == shape(Aprev)[:2] and res[2].dim == shape(res[0])[1]",
                   f'sparse_A[{_tag}]': _sparse('res[0]', '[qd, res[2], -qD[1]]'),
+                  f'sparse_Aprev[{_tag}]': _sparse('res[1]', '[qdp, qm, -res[2]]'),
               },
               canaries={f'right_isometry[{_tag}]': "einsum('sac*,sad->cd', res[0], res[0]) == identity(shape(res[0])[2])"},
               props=('C13', 'C02', 'C12'))
